@@ -70,7 +70,10 @@ def coq_make(targets, timeout=1500):
             rc, out = sh(["coq_makefile", "-f", "_CoqProject", "-o", "Makefile"], cwd=COQ)
             if rc != 0:
                 return False, out
-        rc, out = sh(["timeout", str(timeout), "make", "-j%d" % JOBS] + targets, cwd=COQ, timeout=timeout + 30)
+        # every single file is compiled under its own time limit, so that a proof script that runs away cannot
+        # hold the build lock for long
+        rc, out = sh(["timeout", str(timeout), "make", "-j%d" % JOBS, "COQC=timeout 1200 coqc"] + targets, cwd=COQ,
+                     timeout=timeout + 30)
         return rc == 0, out
 
 
